@@ -212,7 +212,11 @@ func (hc *HashChain) Fill(argb []uint32, quality int, xsize, ysize int, lowEffor
 	// Decide between parallel and serial second pass.
 	numWorkers := runtime.GOMAXPROCS(0)
 	numWorkers = verifhook.Workers(verifhook.SiteLosslessHashChain, numWorkers)
-	if numWorkers > 1 && size > 50000 && !lowEffort {
+	// The algorithm is selected by size and effort only, never by the CPU count:
+	// fillSerial and fillParallel find different matches, and the output bytes
+	// must depend only on the image and the options. numWorkers only sets the
+	// partition of the (order-independent) match search.
+	if size > 50000 && !lowEffort {
 		hc.fillParallel(argb, xsize, size, iterMax, winSize, numWorkers)
 	} else {
 		hc.fillSerial(argb, xsize, size, iterMax, lowEffort, winSize)
